@@ -74,7 +74,12 @@ impl Buildpack for Vbp {
             "pass" => DetectResultBuilder::pass().build(),
             "pass_plan" => {
                 let mut req = libcnb::data::build_plan::Require::new("vbp");
-                let md: toml::Table = "zulu = 1\nalpha = 2\nmike = { b = 1, a = 2 }\n".parse().unwrap();
+                // (keys inserted in an order that differs from process to process, like the iteration
+                // order of a HashMap in buildpack code: the written plan may not depend on it)
+                let mut inner = toml::Table::new();
+                for (k, v) in per_process_order(vec![("b", 1), ("a", 2), ("c", 3), ("d", 4)]) { inner.insert(k.into(), toml::Value::Integer(v)); }
+                let mut md = toml::Table::new();
+                for (k, v) in per_process_order(vec![("zulu", toml::Value::Integer(1)), ("alpha", toml::Value::Integer(2)), ("mike", toml::Value::Table(inner)), ("kilo", toml::Value::Boolean(true)), ("echo", toml::Value::String("e".into()))]) { md.insert(k.into(), v); }
                 req.metadata(md).unwrap();
                 DetectResultBuilder::pass().build_plan(BuildPlanBuilder::new().provides("vbp").requires(req).or().provides("other").build()).build()
             }
@@ -146,10 +151,10 @@ impl Buildpack for Vbp {
             let mut t = toml::Table::new();
             t.insert("written-by".into(), toml::Value::String("vbp".into()));
             if let Some(n) = self.script["store_counter"].as_i64() { t.insert("build-number".into(), toml::Value::Integer(n)); }
-            for (i, k) in ["zulu", "alpha", "mike", "bravo", "yankee", "charlie"].iter().enumerate() {
+            for (i, k) in per_process_order(["zulu", "alpha", "mike", "bravo", "yankee", "charlie"].into_iter().enumerate().collect()) {
                 let mut inner = toml::Table::new();
-                for kk in ["x-ray", "delta", "omega"] { inner.insert(kk.into(), toml::Value::Integer(i as i64)); }
-                t.insert((*k).into(), toml::Value::Table(inner));
+                for kk in per_process_order(vec!["x-ray", "delta", "omega"]) { inner.insert(kk.into(), toml::Value::Integer(i as i64)); }
+                t.insert(k.into(), toml::Value::Table(inner));
             }
             b = b.store(Store { metadata: t });
         }
@@ -168,6 +173,14 @@ impl Buildpack for Vbp {
         self.mark("on_error");
         std::fs::write(self.out.join("on_error.txt"), format!("{error:?}")).unwrap();
     }
+}
+
+/// the items in an order that differs from process to process (seeded like std's HashMap)
+fn per_process_order<T>(mut items: Vec<T>) -> Vec<T> {
+    use std::hash::{BuildHasher, Hasher};
+    let seed = std::collections::hash_map::RandomState::new().build_hasher().finish();
+    fastrand::Rng::with_seed(seed).shuffle(&mut items);
+    items
 }
 
 fn main() {
